@@ -1,6 +1,6 @@
 #!/bin/sh
 # run every check (quick tier) and summarise; usage: tools/run_all.sh [ids...]
-cd /verif
+cd "$(dirname "$0")/.." || exit 2
 ids="$@"; [ -z "$ids" ] && ids="C01 C02 C03 C04 C05 C06 C07 C08 C09 C10 C11 C12 C13 C14 C15 C16 C17 C18"
 for c in $ids; do
   s=$(date +%s); ./check $c --tier quick > /tmp/all_$c.log 2>&1; rc=$?; e=$(date +%s)
